@@ -4,7 +4,7 @@ From Dznpy Require Import Base.PyStr Base.Sexp Run.RunText Run.RunScope Run.RunP
 Import ListNotations.
 Open Scope Z_scope.
 
-Definition run (x : sexp) : sexp :=
+Definition dispatch (x : sexp) : sexp :=
   let t := tag x in
   let a := args x in
   if (100 <=? t) && (t <? 200) then run_text t a
@@ -16,6 +16,7 @@ Definition run (x : sexp) : sexp :=
   else if (t =? 601) then run_build2 t a
   else if (t =? 602) then run_build3 t a
   else if (600 <=? t) && (t <? 700) then run_build t a
+  else if (t =? 700) then run_selector t a
   else SL [SI (-1)].
 
-Definition run_all (l : list sexp) : list sexp := map run l.
+Definition run_all (l : list sexp) : list sexp := map dispatch l.
